@@ -3,11 +3,13 @@
 HOOK_COMMITS = ["c4c2ecd", "2f67f21", "e5d0013"]
 
 ENGINES = [
-    {"name": "tlc", "path": "/verif/lib/vlib.py", "serves_properties": ["C01", "C02", "C03", "C06", "C12"],
+    {"name": "tlc", "path": "/verif/lib/vlib.py", "serves_properties": ["C01", "C02", "C03", "C05", "C06", "C12"],
      "kind_free_text": "TLC runner (exhaustive, simulation), TLA+ value parser, evidence writer"},
     {"name": "psrun", "path": "/verif/lib/psprops.py", "serves_properties": ["C01", "C02", "C03", "C06"],
      "kind_free_text": "abstract programs (catalogue + seeded generator) -> MroSem table by TLC -> real pipestances under forced schedules -> PsTrace monitors by TLC"},
-    {"name": "vh", "path": "/verif/harness", "serves_properties": ["C01", "C02", "C03", "C06", "C12"],
+    {"name": "procdrv", "path": "/verif/lib/procdrv.py", "serves_properties": ["C05"],
+     "kind_free_text": "real mrp/mrjob (tag verif) + table-driven vstage; SIGKILL/SIGTERM/SIGINT at the k-th effect; restart"},
+    {"name": "vh", "path": "/verif/harness", "serves_properties": ["C01", "C02", "C03", "C05", "C06", "C12"],
      "kind_free_text": "Go conformance harness built with -tags verif against /repo's working tree"},
 ]
 
@@ -24,6 +26,10 @@ CHECKS = [
      "technique": "dependency relation from TLA+ semantics (MroSem provenance); slow-producer and random schedules forced on the real run loop; TLC trace monitors",
      "text": "Deps (per job: the stage instances whose outputs flow into its arguments, disabling conditions, map sources, plus enclosing preflights) is computed by TLC from MroSem; every producer in turn is held back while everything else runs; PsTrace (TLC) requires at every StageBegin that all dependencies' last jobs have ended ok and split < chunks < join.",
      "ref": "DESIGN.md 5 C02", "note": _RT_NOTE},
+    {"id": "C05", "engine": "tlc+procdrv+vh",
+     "technique": "TLA+ crash/restart model (MrpRun) checked exhaustively; crash-point enumeration on the real mrp/mrjob binaries; TLC trace monitors",
+     "text": "MrpRun with Crash (any state, jobs dying or surviving as orphans) and Restart is model-checked for NoRedoOfRecorded, BeliefSound and StartsAfterDeps; the real mrp (hooks on) kills or signals itself right after its k-th file-system effect, is restarted on the same directory and must complete with the outputs of an uninterrupted run without re-executing jobs whose _complete was on disk; a handled signal must leave no _lock. PsTrace (TLC) judges the concatenated multi-process trace.",
+     "ref": "DESIGN.md 5 C05", "note": "real binaries, stages under mrjob; local jobs die with mrp on this platform (PDEATHSIG) so surviving orphans are covered by the model only; crash points are mrp's own effects (job-side crash points are not enumerated); quick samples ~18 points per program, thorough takes every effect"},
     {"id": "C06", "engine": "tlc+psrun+vh",
      "technique": "fault enumeration on real runs chosen from the TLA+ job table; restart with the fault removed; TLC trace monitors",
      "text": "For jobs of every program (table from MroSem) each failure manifestation the stage code can produce (_errors, _assert, truncated _outs, missing key, wrong JSON type, malformed _stage_defs) is injected under seeded schedules; PsTrace (TLC) requires: the incarnation ends failed and names the failing stage, no job depending on the failed call starts; after mrp's exit a fresh runtime re-attaches with the fault removed and must complete with the reference outputs without re-executing recorded work.",
